@@ -35,6 +35,7 @@ def load_unit_cfg(name):
 def lemma_tags(cfg):
     """`//@serves C01 C06` comment lines in prelude/lemma files tag the next fn; `//@module_serves ...` the whole module."""
     tags = {}
+    bodies = {}
     crate = cfg.get('crate_name', 'unit')
     files = list(cfg.get('prelude_files', [])) + list(cfg.get('postlude_files', []))
     for rel in files:
@@ -42,6 +43,7 @@ def lemma_tags(cfg):
         mod = None
         modserves = []
         pending = None
+        cur = None
         for ln in txt.split('\n'):
             m = re.match(r'\s*pub mod (\w+)\s*\{', ln)
             if m and mod is None:
@@ -58,6 +60,31 @@ def lemma_tags(cfg):
                 nm = '%s::%s::%s' % (crate, mod, m.group(1))
                 tags[nm] = dict(serves=sorted(set((pending or []) + modserves)), file=rel)
                 pending = None
+                cur = nm
+                bodies[cur] = []
+            if mod and cur:
+                bodies[cur].append(ln)
+    # a theorem rests on the lemmas it calls: a lemma serves every property that a (transitive) caller serves
+    short = {}
+    for nm in tags:
+        short.setdefault(nm.split('::')[-1], []).append(nm)
+    calls = {}
+    for nm, lines in bodies.items():
+        body = '\n'.join(lines[1:])
+        calls[nm] = set()
+        for w in set(re.findall(r'\b(\w+)\s*(?:::<[^;{}()]*>)?\s*\(', body)):
+            for tgt in short.get(w, []):
+                if tgt != nm:
+                    calls[nm].add(tgt)
+    changed = True
+    while changed:
+        changed = False
+        for nm, tg in calls.items():
+            sv = set(tags[nm]['serves']) - {'ALL'}
+            for t in tg:
+                if not sv <= set(tags[t]['serves']):
+                    tags[t]['serves'] = sorted(set(tags[t]['serves']) | sv)
+                    changed = True
     return tags
 
 
@@ -250,8 +277,8 @@ def _check(pid, P, tier, seed, bdir, ev):
                          contract=f.get('contract_file'))
             fn_report.append(entry)
             if f['mode'] in ('verified', 'transparent'):
-                if st is None or nobl == 0:
-                    # no query was generated: vacuity guard
+                if st is None and nobl == 0:
+                    # Verus generated no query for it at all: vacuity guard (a body with nothing to prove still appears with a query)
                     if f['mode'] == 'verified':
                         undecided.append('function %s produced no obligations (vacuity guard)' % VR.short(key))
                 total_obl += nobl
